@@ -10,7 +10,7 @@ import time
 from typing import TYPE_CHECKING, cast
 
 from pynetdicom import evt
-from pynetdicom.fsm import StateMachine
+from pynetdicom.fsm import StateMachine, InvalidEventError
 from pynetdicom.pdu import (
     A_ASSOCIATE_RQ,
     A_ASSOCIATE_AC,
@@ -42,6 +42,10 @@ if TYPE_CHECKING:  # pragma: no cover
 
 
 LOGGER = logging.getLogger(__name__)
+
+
+# Events corresponding to the receipt of a service primitive from the local user
+_USER_PRIMITIVE_EVENTS = ("Evt1", "Evt7", "Evt8", "Evt9", "Evt11", "Evt14", "Evt15")
 
 
 class DULServiceProvider(Thread):
@@ -447,7 +451,28 @@ class DULServiceProvider(Thread):
                 sleep = True
                 continue
 
-            self.state_machine.do_action(event)
+            try:
+                self.state_machine.do_action(event)
+            except InvalidEventError:
+                # If the provider has already aborted the association (Sta13,
+                #   awaiting transport connection close) then a primitive that
+                #   was still queued by the local user cannot be acted on, so
+                #   discard it rather than killing the DUL with the socket open
+                if (
+                    self.state_machine.current_state != "Sta13"
+                    or event not in _USER_PRIMITIVE_EVENTS
+                ):
+                    raise
+
+                LOGGER.warning(
+                    f"Discarding a service primitive from the local user ({event}) "
+                    "as the association has already been aborted"
+                )
+                try:
+                    self.to_provider_queue.get(block=False)
+                except queue.Empty:
+                    pass
+
             sleep = False
 
     def _send(self, pdu: _PDUType) -> None:
